@@ -75,6 +75,31 @@ theorem submitChecked_cases (p : Params) (s s' : State) (b : Block) (h : submitC
           subst e
           exact Or.inr ⟨by omega, ⟨set, hv, h.symm⟩, hg⟩
 
+/-! ### block-root queries -/
+
+/-- the block root a proposer is given for the next height with predecessor `x` is the accumulator root over the
+previous-block hashes of all committed blocks plus `x` — the value `submitBlock` compares a block's root with; it
+depends on nothing but the accumulator and `x` -/
+theorem blockRootWithPre_next (p : Params) (s : State) (x : Hash) (hlt : s.mem.currHeight + 1 < 4294967296) :
+    blockRootWithPre p s (s.mem.currHeight + 1) [x] = some (treeRoot p (s.mem.blockTree ++ [x])) := by
+  unfold blockRootWithPre
+  simp only [List.length_cons, List.length_nil, Nat.reducePow]
+  have h1 : ¬ s.mem.currHeight > (s.mem.currHeight + 1 + (0 + 1) + 4294967296 - 1) % 4294967296 := by omega
+  have h2 : (s.mem.currHeight + 1 + 4294967296 - (s.mem.currHeight + 1) % 4294967296) % 4294967296 = 0 := by omega
+  rw [if_neg h1]
+  simp only [h2, List.drop_zero]
+  simp
+
+/-- a caller that is behind the ledger gets the empty hash -/
+theorem blockRootWithPre_behind (p : Params) (s : State) (start : Nat) (pre : List Hash)
+    (h1 : 1 ≤ start + pre.length) (h2 : start + pre.length - 1 < s.mem.currHeight) (h3 : s.mem.currHeight < 4294967296) :
+    blockRootWithPre p s start pre = some zeroHash := by
+  unfold blockRootWithPre
+  simp only [Nat.reducePow]
+  have : s.mem.currHeight > (start + pre.length + 4294967296 - 1) % 4294967296 := by omega
+  rw [if_pos this]
+
+
 /-! ### the block store after a commit -/
 
 theorem foldl_upd_other {β : Type} (txs : List Tx) (f : Hash → Option β) (g : Tx → β) (h : Hash)
